@@ -141,3 +141,7 @@ if "replay_jobs" in globals():
     _rj = replay_jobs
     def replay_jobs(prop, path, exes):
         return _rj(prop, path, exes) if prop in _OWNED else []
+
+C20_HARNESS = {"h_elastic_san": dict(src="h_elastic.cpp", flags=SAN)}
+C20_MAP = {"h_elastic": "h_elastic_san"}
+C20_STREAMS = [elastic_streams("all", 300, 10000)]
